@@ -297,8 +297,8 @@ func (d *Document) initializeNumbering() {
 func (d *Document) getOrCreateNumbering(config *ListConfig) string {
 	manager := d.getNumberingManager()
 
-	// 生成抽象编号键
-	abstractKey := fmt.Sprintf("%s_%s_%d", config.Type, config.BulletSymbol, config.IndentLevel)
+	// 生成抽象编号键（包含起始编号：起始编号不同的请求不能共用同一个定义）
+	abstractKey := fmt.Sprintf("%s_%s_%d_%d", config.Type, config.BulletSymbol, config.IndentLevel, config.StartNumber)
 
 	// 检查是否已存在抽象编号
 	var abstractNum *AbstractNum
